@@ -133,6 +133,12 @@ def oracle(run: runner.Run, oc: Outcome) -> None:
                 allspecs[f"{hid}/{sub['id']}"] = dict(sub, kind=h['kind'], opts=sub.get('opts', {}))
         for (op, uid), lst in steps.items():
             for cyc in changes.segment_cycles(st, lst, snaps, uid):
+                # An object deleted under a running handler: the step's write meets a 404 and is dropped silently
+                # (by design); the events still queued for it are then processed on outdated records.
+                seq_lo = cyc[0].seq0
+                seq_hi = cyc[-1].seq1 if cyc[-1].seq1 is not None else float('inf')
+                if any(e[2] == 'rsp' and e[4] == 404 and seq_lo <= e[0] <= seq_hi for e in run.sim.trace):
+                    continue
                 by_h: dict[str, list[tuple[runner.Call, bool]]] = {}
                 for s in cyc:
                     persisted = s.how == 'returned' and bool(s.writes)  # the attempt's record reached the server
